@@ -72,12 +72,12 @@ struct EncScenario : Scenario {
         std::vector<Buf> pool;     // affine elements
         size_t asz() const { return R.sz(g == 1 ? JV_SZ_G1A : JV_SZ_G2A); }
         void marshal(std::vector<uint8_t>& out, const void* a, bool c) {
-            Bytes b(enc_size(g, c) , 0xA5); env.lib_calls++;
+            MBytes b(enc_size(g, c), (size_t) (env.lib_calls % 5 == 0 ? 1 + env.lib_calls % 13 : 0), 0xA5); env.lib_calls++;
             if (g == 1) R.jv_g1_marshal(view, b.p, a, c); else R.jv_g2_marshal(view, b.p, a, c);
             out.assign(b.p, b.p + b.n);
         }
         int unmarshal(void* out, const std::vector<uint8_t>& in, bool c, bool checked) {
-            Bytes b(in.data(), in.size()); env.lib_calls++;     // exact-size heap copy: over-reads are visible to ASan
+            MBytes b(in.data(), in.size(), (size_t) (env.lib_calls % 3 == 0 ? 1 + env.lib_calls % 15 : 0)); env.lib_calls++;     // exact-size heap copy: over-reads are visible to ASan; arbitrary alignment
             return g == 1 ? R.jv_g1_unmarshal(view, out, b.p, c, checked) : R.jv_g2_unmarshal(view, out, b.p, c, checked);
         }
         std::string canon(const void* a) { uint8_t c[193]; if (g == 1) { R.jv_g1a_canon(c, a); return std::string((char*) c, 97); } R.jv_g2a_canon(c, a); return std::string((char*) c, 193); }
